@@ -594,6 +594,36 @@ def _value_codecs(c, prog):
     c.inst("R8.schnorr-sig-lengths", "accepted lengths {64, 65}", lens == {64, 65}, "lengths %s" % sorted(lens), fs.where(), fs.path)
     fse = prog.fn("<schnorr::SchnorrSig as pset::serialize::Serialize>::serialize")
     c.inst("R8.schnorr-sig-writer", "serialize = SchnorrSig::to_vec", "schnorr::SchnorrSig::to_vec(arg1)" in show(Prov(fse.body).local(0)), show(Prov(fse.body).local(0))[:120], fse.where(), fse.path)
+    # to_vec itself: the sighash byte is appended for every type except Default (the reader maps 64 bytes to Default only)
+    from .c15 import Fn as _Fn, sh as _sh
+    from ..ieval import ieval as _ieval, NoEval as _NoEval
+    TV = _Fn(prog, "schnorr::SchnorrSig::to_vec")
+
+    def pushes(stmts, d):
+        n = 0
+        for st in stmts:
+            if st[0] == "do" and st[1].endswith("::push"):
+                n += 1
+            elif st[0] == "if":
+                try:
+                    v = _ieval(st[1], {"d": d}, {"discr(arg1.hash_ty)": "d"})
+                except _NoEval:
+                    return None
+                arm = "=%d" % v if "=%d" % v in st[2] else "otherwise"
+                r = pushes(st[2].get(arm, []), d)
+                if r is None:
+                    return None
+                n += r
+            elif st[0] == "while":
+                return None
+        return n
+    tab = {}
+    for v in prog.types["sighash::SchnorrSighashType"]["variants"]:
+        tab[v["name"]] = pushes(TV.L, int(v["discr"]))
+    pushed = [_sh(s_[2][1]) for cx, s_ in TV.flat if s_[0] == "do" and s_[1].endswith("::push")]
+    c.inst("R8.schnorr-sig-writer", "to_vec appends the sighash byte exactly when the type is not Default",
+           all((n == 0) == (k == "Default") and n in (0, 1) for k, n in tab.items()) and set(pushed) == {"(discr(arg1.hash_ty) as u8)"},
+           "bytes appended per type %s; value appended %s" % (tab, pushed), TV.f.where(), TV.f.path)
 
 
 def _value_pairs(c, prog):
